@@ -89,7 +89,8 @@ def _quadrature(k, n, G):
 
 def BOUNDED(tier, seed):
     fails = []
-    cases = [(1, 2, 24), (1, 3, 8), (2, 3, 16), (2, 4, 6)] if tier == 'quick' else [(1, 2, 40), (1, 3, 12), (2, 3, 24), (2, 4, 8)]
+    cases = [(1, 2, 24), (1, 3, 8), (2, 3, 16), (2, 4, 6), (3, 4, 8)] if tier == 'quick' else \
+        [(1, 2, 40), (1, 3, 12), (2, 3, 24), (2, 4, 8), (3, 4, 12)]
     evals = 0
     out = []
     for k, n, G in cases:
@@ -109,7 +110,7 @@ def BOUNDED(tier, seed):
     return [{'name': 'inclusion_probability_quadrature', 'evaluations': evals, 'distinct_nontrivial': len(cases),
              'rule': 'midpoint quadrature (G points per random.random draw) x exact enumeration of slots through the real class; '
                      'cases (k,n,G) = ' + str(cases) + '; tolerance 0.07 (quick, coarse grids) / 0.035 (thorough); distinct = (k, n)',
-             'bound': 'k <= 2, n <= 4', 'cases': out, 'failures': fails}]
+             'bound': 'k <= 3, n <= 4', 'cases': out, 'failures': fails}]
 
 
 def SEARCH(ob, seed):
